@@ -183,6 +183,11 @@ pub mod c15;
 pub mod c19;
 pub mod bundle;
 pub mod cutil;
+pub mod c25;
+pub mod c01;
+pub mod c01gen;
+pub mod c01vec;
+pub mod c01bnd;
 pub mod c31;
 pub mod c02;
 pub mod c29;
@@ -195,4 +200,3 @@ pub mod c33;
 pub mod c34;
 pub mod c34tx;
 pub mod c28;
-pub mod c25;
